@@ -1,9 +1,12 @@
 """C07 — see properties.jsonl."""
 from . import proc_common as PC
+from . import actor_common as AC
 from .proc_common import TRUSTED_BASE, ASSUMPTIONS
 
 COQ_FILES = ["Proc.v", "ProcExec.v", "ProcProofs.v", "PropsProc.v", "DeliverExec.v", "ProcSchedExec.v"]
 THEOREMS = ["C07_cancel_only_after_stopped_and_unregistered", "C07_every_pill_cancelled_exactly_once", "C07_graceful_pill_drains_first", "C07_pills_invisible", "C07_oracle_sound"]
+COQ_FILES = COQ_FILES + AC.COQ_FILES
+THEOREMS = THEOREMS + ['C07_cancel_after_stopped_all_schedules']
 RULE = ("scripted single-actor scenarios on the real engine: the Started handler of the first incarnation forms the first batch "
         "from {message, panicking message, Poison(self), Stop(self)} (exhaustive to length 4/5), plus panics in Initialized/Started/"
         "per incarnation, InternalError panics, handlers that send more messages, MaxRestarts 0-3, middleware chains 0-3 and external "
@@ -15,4 +18,4 @@ class Part(PC.ProcPart):
     prop = 7
 
 
-PARTS = [Part(), PC.ProcSched()]
+PARTS = [Part(), PC.ProcSched(), AC.ActorSched()]
